@@ -246,6 +246,9 @@ def check_exchange_premise(led):
     Q(theta + 90) is the axis-exchanged Q(theta) -- proved on the real Lamina.rebuild (same obligations as in C01)"""
     from . import c01
     c01.part_lamina(_Premises(led, ('/rotate-90[', '/mirror-angle[')))
+    # the similarity law (moduli x e, lengths x s) needs laminate matrices that are the exact thickness integrals -- homogeneous of degree
+    # one in the moduli: the read_stack obligations of C01 (A, B, D, E equal to the integrals, for every unit system)
+    c01.part_read_stack(_Premises(led, ('/A', '/B', '/D', '/E', '/no-exception')))
 
 
 def body(led):
